@@ -798,9 +798,18 @@ ObsView(s) == [StoreView(s) EXCEPT !.redQ = QueueView(s)]
 C18_Step(pre, rec, post) ==
   IF rec.ev # "ExportImport" THEN {}
   ELSE Check("C18", rec.res.ok, "export/import failed: " \o rec.res.err)
+       \cup Check("C18", rec.res.ok => rec.res.same, "a second export (after re-import) is not identical to the first")
        \cup UNION {Check("C18", ObsView(pre)[f] = ObsView(post)[f], "after export and re-import the module's " \o f \o " differ from the original") : f \in DOMAIN ObsView(pre) \ {"flag"}}
        \* a rebalance that is pending must still be pending; an additional one is a no-op at a fix-point
        \cup Check("C18", pre.flag => post.flag, "a pending rebalance is lost by export and re-import")
+
+-----------------------------------------------------------------------------
+(* C19 determinism: the harness executed the step detn times on sibling branches of one state (plus once for real) and
+   compared the raw stores of x/alliance, x/bank, x/staking, x/distribution, x/slashing, x/auth, x/mint, the results and the
+   emitted events *)
+C19_Step(pre, rec, post) ==
+  IF rec.res.detn = 0 THEN {}
+  ELSE Check("C19", rec.res.det, rec.ev \o " executed " \o ToString(rec.res.detn) \o " times from the same state produced different stores, results or events (" \o rec.res.detDiff \o ")")
 
 -----------------------------------------------------------------------------
 JudgeState(s, rec, gh) ==
@@ -814,7 +823,7 @@ Judge(pre, rec, post, gh, gh2) ==
   \cup C09_Step(pre, rec, post) \cup C14_Step(pre, rec, post) \cup C14_Settle(pre, rec, post)
   \cup C15_Step(pre, rec, post, gh) \cup C16_Step(pre, rec, post) \cup C17_Step(pre, rec, post)
   \cup C10_Step(pre, rec, post) \cup C11_Step(pre, rec, post, gh, gh2) \cup C18_Step(pre, rec, post)
-  \cup C13_Step(pre, rec, post, gh)
+  \cup C13_Step(pre, rec, post, gh) \cup C19_Step(pre, rec, post)
 
 \* coverage tags: which property antecedents were exercised non-trivially at this step
 Covers(pre, rec, post, gh, gh2) ==
@@ -828,6 +837,7 @@ Covers(pre, rec, post, gh, gh2) ==
   \cup (IF rec.res.ok /\ rec.ev \in {"Delegate", "Undelegate", "Redelegate", "Claim"} THEN {rec.ev} ELSE {})
   \cup (IF rec.ev \in GovEvents THEN {IF rec.res.ok THEN "gov-accept" ELSE "gov-reject"} ELSE {})
   \cup (IF rec.ev = "EndBlock" THEN {"endblock"} ELSE {})
+  \cup (IF rec.res.detn > 0 THEN {"replayed"} ELSE {})
   \cup (IF Claimers(pre, rec) # {} /\ Claimers(pre, rec) \cap gh.taint = {}
            /\ (\E k \in Claimers(pre, rec) : k \in DOMAIN EntMid(gh, pre, rec, post) /\ \E rd \in DOMAIN EntMid(gh, pre, rec, post)[k] : IsPos(EntMid(gh, pre, rec, post)[k][rd][1]))
         THEN {"claim-with-entitlement"} ELSE {})
